@@ -761,7 +761,35 @@ def generate():
                 found["extra"] = True
         if not all(found.values()):
             raise Unsupported("configure: branches not found %r" % found)
+
+        # ---------------------------------------------------------------- tasks the LIBRARY creates (coroutine sinks)
+        # AsyncSink.write: in which execution context does the task of a coroutine sink run?  `X.create_task(coro)`
+        # (one positional argument, no keyword) copies the emitter's current context for every task; a `context=`
+        # argument (or a helper that is handed more than loop + coroutine) is a fresh per-call `copy_context()` – the
+        # same thing – or a stored object: then all tasks of the handler share ONE context.
+        stree, _ = parse_module("_simple_sinks.py")
+        wr = find_func(find_class(stree, "AsyncSink"), "write")
+        calls = [n for n in ast.walk(wr) if isinstance(n, ast.Call) and (
+            (isinstance(n.func, ast.Attribute) and n.func.attr == "create_task")
+            or (isinstance(n.func, ast.Name) and "create_task" in n.func.id))]
+        if len(calls) != 1:
+            raise Unsupported("AsyncSink.write: expected exactly one create_task call, found %d" % len(calls))
+        ct = calls[0]
+        extra_args = list(ct.args[1:]) if isinstance(ct.func, ast.Attribute) else list(ct.args[2:])
+        extra_args += [k.value for k in ct.keywords if k.arg in ("context", None)]
+        if any(k.arg not in ("context", "name", None) for k in ct.keywords):
+            raise Unsupported("AsyncSink.write: create_task keywords %r" % [k.arg for k in ct.keywords])
+        if isinstance(ct.func, ast.Name) and len(ct.args) < 2:
+            raise Unsupported("AsyncSink.write: helper create_task call " + _u(ct))
+
+        def per_call_copy(v):
+            return isinstance(v, ast.Call) and not v.args and not v.keywords and \
+                _u(v.func) in ("copy_context", "contextvars.copy_context")
+        task_ctx = "TaskCtx.copyOfCaller" if all(per_call_copy(v) for v in extra_args) else "TaskCtx.shared"
+        body += ("/-- `AsyncSink.write`: %s – the context the task of a coroutine sink runs in -/\n"
+                 "def sinkTaskContext : TaskCtx := %s\n\n" % (_u(ct), task_ctx))
     except (Unsupported, SyntaxError, KeyError, AttributeError, IndexError, OSError) as e:
         errors.append("%s: %s" % (type(e).__name__, e))
     body += "end Context.Gen\n"
-    return emit("Context", body, ["loguru/_logger.py", "loguru/_contextvars.py", "loguru/__init__.py"], errors)
+    return emit("Context", body, ["loguru/_logger.py", "loguru/_contextvars.py", "loguru/__init__.py",
+                                  "loguru/_simple_sinks.py"], errors)
